@@ -402,6 +402,9 @@ func VP_C19_pool() {
 		{"millSecond(addDate(date(2000, 1, 1), 0, 0, 200000)) - millSecond(date(2000, 1, 1)) === 200000 * 86400000 ? 1 : 0", 1},
 	}
 	p := pool[vpChoice("f", len(pool))]
+	if !vpSymbolic() {
+		vpC19DSTNative()
+	}
 	code, err := ParseSourceCode([]byte(p.f))
 	vpAssert("C19/pool/parses", err == nil)
 	if err != nil {
@@ -414,4 +417,41 @@ func VP_C19_pool() {
 	vpObserve("pool", p.f, f, rerr != nil)
 	vpAssert("C19/pool/civil-fields", rerr == nil && ok && f == float64(p.want))
 	vpReach("C19/pool/done")
+}
+
+// vpC19DSTNative: civil-field shifts across a daylight-saving transition. The engine has no
+// time-zone database, so these are decided by the native replay only (and only if the zone
+// database is present there). The instants are given as data, independent of the local zone.
+func vpC19DSTNative() {
+	if _, err := time.LoadLocation("America/New_York"); err != nil {
+		return
+	}
+	if _, err := time.LoadLocation("Europe/Berlin"); err != nil {
+		return
+	}
+	data := map[string]interface{}{
+		"t0": time.Date(2021, 3, 13, 0, 0, 0, 0, time.UTC),  // 19:00 EST on 12 March in New York; DST starts on 14 March
+		"t1": time.Date(2021, 3, 27, 12, 0, 0, 0, time.UTC), // 13:00 CET in Berlin; DST starts on 28 March
+		"t2": time.Date(2021, 11, 6, 16, 0, 0, 0, time.UTC), // 12:00 EDT in New York; DST ends on 7 November
+	}
+	for _, c := range []struct {
+		f    string
+		want float64
+	}{
+		{"hour(addDate(useTimezone(t0, 'America/New_York'), 0, 0, 2))", 19}, {"day(addDate(useTimezone(t0, 'America/New_York'), 0, 0, 2))", 14},
+		{"hour(addDate(useTimezone(t1, 'Europe/Berlin'), 0, 0, 1))", 13}, {"hour(addDate(useTimezone(t2, 'America/New_York'), 0, 0, 1))", 12},
+		{"hour(addDate(useTimezone(t2, 'America/New_York'), 0, 1, -29))", 12}, {"millSecond(useTimezone(t1, 'Europe/Berlin')) - millSecond(t1)", 0},
+		{"hour(useTimezone(useTimezone(t0, 'America/New_York'), 'Europe/Berlin'))", 1},
+	} {
+		code, err := ParseSourceCode([]byte(c.f))
+		if err != nil {
+			vpNativeOnly("C19/pool/dst-civil-shift", false)
+			continue
+		}
+		r := NewRunner()
+		r.SetThis(data)
+		v, rerr := r.Resolve(context.Background(), code.Expression)
+		f, ok := v.(float64)
+		vpNativeOnly("C19/pool/dst-civil-shift", rerr == nil && ok && f == c.want)
+	}
 }
